@@ -107,6 +107,10 @@ func (e *Engine) VerifyUnit(c *Contract) (r *FnRun) {
 	for _, rq := range c.Requires {
 		fr.assume(ctx.Bool(rq.E))
 	}
+	for _, gv := range c.GhostVars {
+		v := ctx.Eval(gv.Init)
+		fr.st.ghost["gv."+gv.Name] = ctx.term(v)
+	}
 	r.addCover("requires-satisfiable", True)
 	fr.entry = fr.st.Clone()
 	retGuard, out, results := fr.runBody(fr.st, True)
@@ -657,6 +661,14 @@ func immutableCapture(fn *ssa.Function, i int) bool {
 			}
 		}
 	}
+	var mcInstr *ssa.MakeClosure
+	for _, b := range parent.Blocks {
+		for _, in := range b.Instrs {
+			if mc, ok := in.(*ssa.MakeClosure); ok && mc.Fn == fn {
+				mcInstr = mc
+			}
+		}
+	}
 	switch bv := bound.(type) {
 	case *ssa.Alloc:
 		stores := 0
@@ -665,6 +677,10 @@ func immutableCapture(fn *ssa.Function, i int) bool {
 			case *ssa.Store:
 				if r.Addr != bv {
 					return false
+				}
+				if mcInstr != nil && storePrecedes(r, mcInstr) {
+					// assigned before the closure exists (and never again afterwards): does not count
+					continue
 				}
 				stores++
 			case *ssa.UnOp, *ssa.DebugRef:
@@ -679,7 +695,7 @@ func immutableCapture(fn *ssa.Function, i int) bool {
 				return false
 			}
 		}
-		return stores <= 1
+		return stores == 0 || (stores <= 1 && mcInstr == nil)
 	case *ssa.FreeVar:
 		for j, fv := range parent.FreeVars {
 			if fv == bv {
@@ -791,4 +807,40 @@ func (r *FnRun) preRegisterTracks(fr *Frame) {
 		}
 	}
 	visit(fr.Fn, 0)
+}
+
+// storePrecedes: the store is executed before the closure is created on every path and cannot be reached again
+// afterwards (its block dominates the closure's block and is not reachable from it).
+func storePrecedes(st *ssa.Store, mc *ssa.MakeClosure) bool {
+	sb, cb := st.Block(), mc.Block()
+	if sb == cb {
+		si, ci := -1, -1
+		for i, in := range sb.Instrs {
+			if in == ssa.Instruction(st) {
+				si = i
+			}
+			if in == ssa.Instruction(mc) {
+				ci = i
+			}
+		}
+		if si > ci {
+			return false
+		}
+	}
+	// not reachable again from the closure's block
+	seen := map[*ssa.BasicBlock]bool{}
+	stack := append([]*ssa.BasicBlock{}, cb.Succs...)
+	for len(stack) > 0 {
+		b := stack[len(stack)-1]
+		stack = stack[:len(stack)-1]
+		if seen[b] {
+			continue
+		}
+		seen[b] = true
+		if b == sb {
+			return false
+		}
+		stack = append(stack, b.Succs...)
+	}
+	return true
 }
